@@ -172,16 +172,16 @@ def Op.pack (o : Op) (numTr : Nat) (b : Array Nat) (off : Nat) : Except Err (Op 
   | .swapGainStm seg mode value =>
     .ok ({ o with done := true }, swapWithTransition b off TAG_GainSTMSwapSegment seg mode value, DrvLayout.SwapSegmentTWithTransition_size)
   | .modulation seg tr rep div samples =>
+    -- length check before the first frame (nothing of an over-long buffer is written)
+    if samples.size < MOD_BUF_SIZE_MIN ∨ samples.size > MOD_BUF_SIZE_MAX then .error (.modulationSizeOutOfRange samples.size) else
     let isFirst := o.sent = 0
     let hoff := if isFirst then DrvLayout.ModulationHead_size else DrvLayout.ModulationSubseq_size
     let maxMod := if isFirst then min (avail - hoff) 254 else avail - hoff
     let sendNum := min (samples.size - o.sent) maxMod
     let b := putBytes b (off + hoff) samples o.sent sendNum
     let sent := o.sent + sendNum
-    if sent > MOD_BUF_SIZE_MAX then .error (.modulationSizeOutOfRange sent) else
     let flag := if seg = 1 then ModulationControlFlags_SEGMENT else ModulationControlFlags_NONE
     let last := samples.size = sent
-    if last ∧ sent < MOD_BUF_SIZE_MIN then .error (.modulationSizeOutOfRange sent) else
     let flag := if last then flag ||| ModulationControlFlags_END ||| (if tr.isSome then ModulationControlFlags_TRANSITION else 0) else flag
     let o := { o with sent := sent, done := o.done || last }
     if isFirst then
